@@ -4,8 +4,8 @@ cd "$(dirname "$0")"
 tier="${1:-quick}"
 for id in $(python3 -c "import json; print(' '.join(c['property_id'] for c in json.load(open('MANIFEST.json'))['checks']))"); do
   s=$(date +%s)
-  ./check "$id" --tier "$tier" > ".work/runall.$id.out" 2>&1; rc=$?
+  ./check "$id" --tier "$tier" > ".work/runall.$tier.$id.out" 2>&1; rc=$?
   e=$(date +%s)
-  kf=$(grep -c "^KNOWN-FINDING" ".work/runall.$id.out")
-  echo "$id exit=$rc wall=$((e-s))s known_findings=$kf $(grep -E '^(VIOLATION|TOOL-ERROR)' .work/runall.$id.out | head -2 | tr '\n' ' ')"
+  kf=$(grep -c "^KNOWN-FINDING" ".work/runall.$tier.$id.out")
+  echo "$id exit=$rc wall=$((e-s))s known_findings=$kf $(grep -E '^(VIOLATION|TOOL-ERROR)' .work/runall.$tier.$id.out | head -2 | tr '\n' ' ')"
 done
